@@ -1218,7 +1218,7 @@ c03_step!(inv_alloc_typed_a32_sync_opt, sync::Arena, A32, Optimistic, Typed, 2, 
 // @h props=C03,C01,C10 tier=thorough timeout=1800 bounds=CAP=128,MAXN=2,T=align32x32,n<=256
 c03_step!(inv_alloc_aligned_a32_unsync_opt, unsync::Arena, A32, Optimistic, Aligned, 2, 3, 5);
 // thorough: rest of the layout list
-// @h props=C03,C01,C10 tier=thorough timeout=1800 bounds=CAP=128,MAXN=2,T=u8
+// @h props=C03,C01,C10 tier=thorough timeout=1800 bounds=CAP=128,MAXN=2,T=u8 optcover=error_with_a_non-empty_list
 c03_step!(inv_alloc_typed_u8_sync_opt, sync::Arena, u8, Optimistic, Typed, 2, 3, 5);
 // @h props=C03,C01,C10 tier=thorough timeout=1800 bounds=CAP=128,MAXN=2,T=u16
 c03_step!(inv_alloc_typed_u16_unsync_pess, unsync::Arena, u16, Pessimistic, Typed, 2, 3, 5);
